@@ -185,6 +185,31 @@ class Hidden:
 # ----------------------------------------------------------------------------------------------
 # a case: the real objects, the abstract state, the protocol lines
 
+class HiddenGen:
+    """the generator callable handed to the environment: draws the hidden games of a case one after the other.  A plain picklable
+    object (its state = the draw counter), so that an environment can cross a process boundary (pickle) or be deep-copied like
+    the ones evaluate() ships to its workers; the copy carries its own counter from there on."""
+
+    def __init__(self, tables: list, objs: list, reuse_buffer: bool, game_cls):
+        self.tables, self.objs, self.reuse_buffer, self.game_cls = tables, objs, reuse_buffer, game_cls
+        self.k = 0
+        self.buf = None
+
+    def __call__(self):
+        i = self.k % len(self.tables)
+        self.k += 1
+        obj = self.objs[i]
+        if self.reuse_buffer and isinstance(obj, self.game_cls):
+            # a generator that refills one preallocated game object and hands out the SAME object at every draw: what counts is
+            # what the object holds when it is drawn
+            if self.buf is None:
+                self.buf = obj.copy()
+            else:
+                self.buf.set_values(np.array(self.tables[i], dtype=float))
+            return self.buf
+        return obj.copy()
+
+
 _FORM_COUNTER = [0]
 ARRAY_FORMS = ("0-d array", "1-element array")
 
@@ -219,10 +244,9 @@ class Case:
         self.n, self.N, self.comp, self.gap, self.budget, self.initial = n, 2 ** n, comp, gap, budget, list(initial)
         self.hidden, self.kind, self.linear, self.np_seed, self.approx_lin = hidden, kind, linear, np_seed, approx_lin
         self.ops: list = []
-        self.draws = 0
         self.nreset = 0
         self.reuse_buffer = Case.reuse_buffer_next
-        self._buf = None
+        self.genobj = HiddenGen([h.vals for h in hidden], [h.obj for h in hidden], self.reuse_buffer, M.Game)
         self.ik = set(initial) | {0, self.N - 1}
         self.explorable = [c for c in range(self.N) if c not in self.ik]
         self.revealed: set[int] = set()
@@ -275,23 +299,45 @@ class Case:
         return Case(self.res, self.script, name, self.n, self.comp, self.gap, self.budget, self.initial, self.hidden,
                     self.prop, self.kind, self.linear, self.np_seed, self.approx_lin)
 
-    # -- generator closure ---------------------------------------------------------------------
-    def next_hidden(self) -> Hidden:
-        h = self.hidden[self.draws % len(self.hidden)]
-        self.draws += 1
-        return h
+    # -- generator ------------------------------------------------------------------------------
+    @property
+    def draws(self) -> int:
+        """how many hidden games the generator of the LIVE environment has handed out"""
+        return self.genobj.k
 
     def gen(self):
-        h = self.next_hidden()
-        if self.reuse_buffer and isinstance(h.obj, self.M.Game):
-            # a generator that refills one preallocated game object and hands out the SAME object at every draw: what counts is
-            # what the object holds when it is drawn
-            if self._buf is None:
-                self._buf = h.obj.copy()
-            else:
-                self._buf.set_values(np.array(h.vals, dtype=float))
-            return self._buf
-        return h.obj.copy()
+        return self.genobj()
+
+    def op_transfer(self):
+        """The environment crosses a process boundary (pickle round trip — what evaluate() does to every environment it ships to a
+        worker) or is deep-copied, mid-episode; the history continues with the object that comes out.  It is the same environment."""
+        if self.dead or not self.alive:
+            return
+        import copy as _copy
+        import pickle as _pickle
+        how = ["pickle", "deepcopy", "pickle"][len(self.ops) % 3]
+        self.ops.append(["transfer", how])
+        top = self.lin if self.lin is not None else self.env
+        try:
+            new_top = _pickle.loads(_pickle.dumps(top)) if how == "pickle" else _copy.deepcopy(top)
+        except Exception as e:      # noqa: BLE001
+            self.res.count(f"op:transfer:{how}:refused:{type(e).__name__}")      # an environment need not be picklable: no verdict
+            self.ops.pop()
+            return
+        new_env = new_top.icg_gym if self.lin is not None else new_top
+        gen = getattr(new_env, "generator", None)
+        if not isinstance(gen, HiddenGen):
+            self.res.count("op:transfer:generator-not-reachable")
+            self.ops.pop()
+            return
+        if self.lin is not None:
+            self.lin = new_top
+        self.env, self.genobj = new_env, gen
+        self.kept = []                      # observations of the old object are no longer this environment's business
+        self.res.count(f"op:transfer:{how}")
+        self.check_state("transfer")
+        if self.linear and self.lin is not None:
+            self.check_lin("transfer")
 
     # -- the fresh-game oracle -----------------------------------------------------------------
     def fresh(self, h: Hidden, K: frozenset):
@@ -349,7 +395,7 @@ class Case:
         if self.np_seed is not None:
             np.random.seed(self.np_seed)
         try:
-            self.env = M.ICG_Gym(game, self.gen, [M.Coalition(c) for c in self.initial], M.GAPS[self.gap], self.budget)
+            self.env = M.ICG_Gym(game, self.genobj, [M.Coalition(c) for c in self.initial], M.GAPS[self.gap], self.budget)
             self.alive = True
         except Exception as e:
             ans = err_kind(e)
@@ -924,7 +970,9 @@ def random_walk(case: Case, rnd, length: int, malformed: float, solver_p: float,
         r = rnd.random()
         unknown = [i for i, c in enumerate(case.explorable) if c not in case.revealed]
         known = [i for i, c in enumerate(case.explorable) if c in case.revealed]
-        if rnd.random() < malformed:
+        if rnd.random() < 0.04:
+            case.op_transfer()
+        elif rnd.random() < malformed:
             a = rnd.choice([m, m + 1, -m - 1, -1, -m] + known + unknown)
             case.op_step(a, un=rnd.random() < 0.4)
         elif r < 0.08 and resets:
@@ -1010,7 +1058,7 @@ def run(tier: str, budget: Budget, rnd, arg: str) -> StreamResult:
                     res.notes.append("constructor accepted an initial list without a singleton")
         # n = 4, 5: sampled walks with resets, unsteps, invalid actions
         i = 0
-        while gen_budget.ok() and i < (150 if quick else 2500):
+        while gen_budget.ok() and i < ((420 if arg == "C09" else 150) if quick else 2500):
             n = 4 if i % 3 != 2 else 5
             c = new_case(n, ["minimal", "minimal", "extra", "dup", "no_empty_grand"][i % 5], fam_filter=asym)
             i += 1
@@ -1055,7 +1103,9 @@ def run(tier: str, budget: Budget, rnd, arg: str) -> StreamResult:
                 r = rnd.random()
                 if r < 0.07:
                     c.op_linreset()
-                elif r < 0.2 or not sizes_left:
+                elif r < 0.14:
+                    c.op_transfer()
+                elif r < 0.25 or not sizes_left:
                     c.op_linstep(rnd.choice([-1, 0, 1, n - 1, n, n + 1] + list(range(n))))
                 else:
                     c.op_linstep(rnd.choice(sizes_left))
@@ -1220,6 +1270,8 @@ def replay(prop: str, payload: dict):
                 c.op_step(op[1], un=True)
             elif op[0] == "solve":
                 c.op_solve(op[1], op[2])
+            elif op[0] == "transfer":
+                c.op_transfer()
             elif op[0] == "linreset":
                 c.op_linreset()
             elif op[0] == "linstep":
